@@ -219,8 +219,9 @@ def _check_accept_flag(ctx: Ctx, pr: FunctionInfo, ctor: ast.Call, accept_f: str
 
     collect(expr)
     reads = [c for e in [expr, *defs.values()] for c in ast.walk(e) if isinstance(c, ast.Call) and last_attr(c) in ("get_header", "get") and c.args and isinstance(c.func, ast.Attribute) and isinstance(c.func.value, ast.Name) and c.func.value.id not in defs]
-    rd = one(list({txt(c): c for c in reads}.values()), "header read feeding the opt-in flag", pr)
-    hname = ctx.repo.const_str(pr.module, rd.args[0])
+    uniq = list({txt(c): c for c in reads}.values())
+    if not uniq:
+        raise AnalysisError(f"anchor=header read feeding the opt-in flag in {pr.fq}: none found")
     # the client's writer
     mh = ctx.fn(TRACK + "._merge_headers")
     writes = []
@@ -231,17 +232,27 @@ def _check_accept_flag(ctx: Ctx, pr: FunctionInfo, ctor: ast.Call, accept_f: str
                     k = ctx.repo.const_str(mh.module, t.slice)
                     if k is not None:
                         writes.append((k, n))
-    w = [n for k, n in writes if isinstance(k, str) and isinstance(hname, str) and k.lower() == hname.lower()]
-    if not isinstance(hname, str) or not w:
-        ctx.fail("RF-TABLE", "opt-in-header-writer-reader-agree", pr, rd, f"the server derives the opt-in flag from `{txt(rd.args[0])}` = {hname!r}, which the tracking client never sends")
+    lit_writes = {k.lower(): n for k, n in writes if isinstance(k, str) and isinstance(n.value, ast.Constant) and isinstance(n.value.value, str)}
+    named = [(c, ctx.repo.const_str(pr.module, c.args[0])) for c in uniq]
+    # the opt-in header is the one the client sends with a fixed literal value; any other header the flag reads is a free input
+    opt = [(c, h) for c, h in named if isinstance(h, str) and h.lower() in lit_writes]
+    if not opt:
+        c0, h0 = named[0]
+        if any(isinstance(h, str) and any(isinstance(k, str) and k.lower() == h.lower() for k, _n in writes) for _c, h in named):
+            raise AnalysisError("C27: the client's opt-in header value is not a string literal")
+        ctx.fail("RF-TABLE", "opt-in-header-writer-reader-agree", pr, c0, f"the server derives the opt-in flag from `{txt(c0.args[0])}` = {h0!r}, which the tracking client never sends")
         return
-    lit = w[0].value
-    if not (isinstance(lit, ast.Constant) and isinstance(lit.value, str)):
-        raise AnalysisError("C27: the client's opt-in header value is not a string literal")
+    if len(opt) > 1:
+        raise AnalysisError(f"anchor=header read feeding the opt-in flag in {pr.fq}: several literal-valued headers {[h for _c, h in opt]}")
+    rd, hname = opt[0]
+    others = [c for c, _h in named if c is not rd]
+    lit = lit_writes[hname.lower()].value
     key = txt(rd)
 
-    def ev(v: object) -> bool:
+    def ev(v: object, other: object = None) -> bool:
         env: dict[str, object] = {key: v}
+        for o in others:
+            env[txt(o)] = other
 
         def val(e: ast.expr, depth: int = 0) -> object:
             for nm in sorted(names_in(e)):
@@ -251,13 +262,14 @@ def _check_accept_flag(ctx: Ctx, pr: FunctionInfo, ctor: ast.Call, accept_f: str
 
         return bool(val(expr))
 
-    ctx.check(ev(lit.value), "RF-TABLE", "opt-in-header-writer-reader-agree", pr, rd,
+    other_vals: list[object] = [None, "", "tok"] if others else [None]
+    ctx.check(all(ev(lit.value, o) for o in other_vals), "RF-TABLE", "opt-in-header-writer-reader-agree", pr, rd,
               ok=f"the client's `{hname}: {lit.value}` satisfies the server's opt-in predicate `{txt(expr)}`",
               bad=f"the client's `{hname}: {lit.value}` does not satisfy `{txt(expr)}`: sessions can never be opened from a with_session_token() block")
-    wrong = [repr(v) for v in (None, "", "false", "0", "no") if ev(v)]
+    wrong = [repr(v) + (f" (with `{txt(others[0].args[0])}` = {o!r})" if others else "") for v in (None, "", "false", "0", "no") for o in other_vals if ev(v, o)]
     ctx.check(not wrong, "RF-DOM", "opt-in-absent-means-no", pr, rd,
-              ok="an absent / empty / 'false' VGI-Session-Accept header yields accept_opens = False",
-              bad=f"`{txt(expr)}` is true for header value(s) {', '.join(wrong)}: a request that did not opt in can open a session whose token the client will not track")
+              ok="an absent / empty / 'false' VGI-Session-Accept header yields accept_opens = False" + (f", whatever the {len(others)} other header(s) the predicate reads" if others else ""),
+              bad=f"`{txt(expr)}` is true for header value(s) {', '.join(wrong[:4])}: a request that did not opt in can open a session whose token the client will not track")
     # the flag reaches the sink unchanged (kw is the name or the expression itself)
     ctx.hold("RF-DOM", "opt-in-flag-reaches-sink", pr, ctor, f"the sink's `{accept_f}` is `{txt(kw.value)}`, the value derived from the header", nontrivial=False)
 
